@@ -35,7 +35,16 @@ from ckl import values as V  # noqa: E402
 # the adversarial alphabet of the property (separators, regex metacharacters,
 # both quotes, backslash, tab, newline, braces, non-ASCII) plus the characters
 # the functions themselves treat specially (space, CR, #, < > &)
-ALPHA = list(",|.+('\"\\\t\n{}aAé") + list(" \rÉ*[])^$?<>&#b-")
+ALPHA = list(",|.+('\"\\\t\n{}aAé") + list(" \rÉ*[])^$?<>&#b-") + list("017")
+# characters that host string methods treat specially (round 3): white space and separators beyond
+# ASCII, invisible marks, letters whose case mapping changes the length or depends on the context,
+# characters outside the basic plane.  Only laws that need no table are checked on them.
+WIDE_WS = [0x0B, 0x0C, 0x1C, 0x1D, 0x1E, 0x1F, 0x85, 0xA0, 0x1680, 0x2000, 0x2003, 0x200A, 0x2028, 0x2029,
+           0x202F, 0x205F, 0x3000]
+WIDE_MARK = [0x200B, 0xFEFF, 0x200E, 0xAD, 0x180E, 0x2060, 0x200D, 0x00, 0x7F, 0x301, 0x307]
+WIDE_CASE = [0xDF, 0x149, 0x1C5, 0x130, 0x131, 0x3A3, 0x3C3, 0x3C2, 0x17F, 0x212A, 0x390, 0xFB01, 0x1F0,
+             0x587, 0x1E9E, 0x10400, 0x10428, 0x1F600, 0x4E2D, 0x69, 0x49, 0x53, 0x73]
+WIDE = [chr(c) for c in WIDE_WS + WIDE_MARK + WIDE_CASE]
 DRIFT_OPS = ("lines", "words", "unlines", "unwords", "q", "esc")
 
 
@@ -61,10 +70,12 @@ def to_value(spec):
     (k, v), = spec.items()
     if k == "s":
         return V.ValueString(txt(v))
-    if k == "i":
+    if k == "i":                       # an int of any size (JSON int or decimal text)
         return V.ValueInt(int(v))
     if k == "d":                       # [mantissa, scale]: exact decimal text
         return V.ValueDecimal(float(f"{v[0]}e-{v[1]}"))
+    if k == "f":                       # the decimal numeral as text
+        return V.ValueDecimal(float(v))
     if k == "l":
         lst = V.ValueList()
         for p in v:
@@ -219,18 +230,21 @@ def check_case(ck, rec, maxs):
     ck.expect("length", "length(S)", {"S": S}, ("val", "int", rec["ln"]))
     ck.expect("chr-ord", "def r = ''; for c in S do r = r + chr(ord(c)) end; r", {"S": S},
               ("val", "str", s))
-    if rec["ip"] and 123 not in t:
-        # one template: t {v#w} for every width and mode, then reverse(t)
+    if rec["ip"] and 123 not in t and 125 not in t:
+        # one template (IpSegs of Str.tla): t {v#w} for every width and mode, t {u}, reverse(t) and an
+        # opening brace that is never closed; sprintf: s is the eleventh argument, t the second
         lit = txt(t)
         tpl_s = tpl_f = ""
         for w in range(0, maxs + 3):
             for mode in MODES:
                 tpl_s += lit + "{v" + fmt_text(w, mode) + "}"
-                tpl_f += lit + "{0" + fmt_text(w, mode) + "}"
-        tpl_s += lit[::-1]
-        tpl_f += lit[::-1]
-        ck.expect("interpolation", "s(F)", {"F": {"s": cps(tpl_s)}, "v": S}, ("val", "str", rec["ip"]))
-        ck.expect("sprintf", "sprintf(F, S)", {"F": {"s": cps(tpl_f)}, "S": S}, ("val", "str", rec["ip"]))
+                tpl_f += lit + "{10" + fmt_text(w, mode) + "}"
+        tpl_s += lit + "{u}" + lit[::-1] + "{1"
+        tpl_f += lit + "{1}" + lit[::-1] + "{1"
+        ck.expect("interpolation", "s(F)", {"F": {"s": cps(tpl_s)}, "v": S, "u": T}, ("val", "str", rec["ip"]))
+        ck.expect("sprintf", "sprintf(F, J, T, J, J, J, J, J, J, J, J, S)",
+                  {"F": {"s": cps(tpl_f)}, "S": S, "T": T, "J": {"s": cps("{0}#1x")}},
+                  ("val", "str", rec["ip"]))
 
 
 # -------------------------------------------------------------- binding B
@@ -240,6 +254,18 @@ def rstr(rng, lo=0, hi=12, alpha=None):
         # a few symbols per string, so that repeats and matches are frequent
         alpha = rng.sample(ALPHA, rng.randint(1, 5)) if rng.random() < 0.6 else ALPHA
     return [ord(rng.choice(alpha)) for _ in range(n)]
+
+
+def walpha(rng):
+    """an alphabet for the operations that need no table of characters: in a third of the cases a few
+    special characters (WIDE) mixed with a few of the adversarial alphabet"""
+    if rng.random() < 0.35:
+        return rng.sample(WIDE, rng.randint(1, 4)) + rng.sample(ALPHA, rng.randint(0, 3))
+    return None
+
+
+def wstr(rng, lo=0, hi=12):
+    return rstr(rng, lo, hi, walpha(rng))
 
 
 def rpart(rng, s):
@@ -265,8 +291,12 @@ def gen_event(rng):
         "find", "contains", "in", "decompose", "starts_with", "ends_with", "length", "concat",
         "split", "split", "split_join", "split_join", "join", "join_split", "replace", "replace",
         "replace_empty", "apply1", "apply1", "apply2", "chr", "ord", "ord_chr", "chr_ord", "ord_empty",
-        "interp", "interp", "interp", "round", "lines", "words", "unlines", "unwords", "q", "esc"])
-    s = rstr(rng)
+        "interp", "interp", "interp", "interp", "round", "round", "idem", "idem", "idem",
+        "lines", "words", "unlines", "unwords", "q", "esc"])
+    # the characters matter to none of the definitions except those of trim / upper / lower (and of the
+    # functions that are not named by the property): everything else also sees the special characters
+    tabled = op in ("apply1", "apply2", "lines", "words", "unlines", "unwords", "q", "esc")
+    s = rstr(rng) if tabled else wstr(rng)
     if op in ("find", "contains", "in", "starts_with", "ends_with"):
         t = rpart(rng, s)
         if op == "starts_with" and rng.random() < 0.4:
@@ -278,14 +308,15 @@ def gen_event(rng):
         return ({"op": op, "s": s, "t": t}, src, {"S": {"s": s}, "T": {"s": t}},
                 "int" if op == "find" else "bool")
     if op == "decompose":
-        a, t, b = rstr(rng, 0, 5), rstr(rng, 0, 3), rstr(rng, 0, 5)
+        al = walpha(rng)
+        a, t, b = rstr(rng, 0, 5, al), rstr(rng, 0, 3, al), rstr(rng, 0, 5, al)
         return ({"op": op, "a": a, "t": t, "b": b},
                 "def x = A + T + B; [x, contains(x, T), T in x, find(x, T)]",
                 {"A": {"s": a}, "T": {"s": t}, "B": {"s": b}}, "decompose")
     if op == "length":
         return ({"op": op, "s": s}, "length(S)", {"S": {"s": s}}, "int")
     if op == "concat":
-        t = rstr(rng)
+        t = wstr(rng)
         return ({"op": op, "s": s, "t": t}, "[S + T, length(S + T)]",
                 {"S": {"s": s}, "T": {"s": t}}, "concat")
     if op in ("split", "split_join"):
@@ -295,6 +326,8 @@ def gen_event(rng):
                 "list" if op == "split" else "str")
     if op in ("join", "join_split", "unlines", "unwords", "q"):
         alpha = rng.sample(ALPHA, rng.randint(1, 6))
+        if op in ("join", "join_split") and rng.random() < 0.35:
+            alpha = rng.sample(WIDE, rng.randint(1, 4)) + rng.sample(ALPHA, rng.randint(0, 2))
         parts = [rstr(rng, 0, 4, alpha) for _ in range(rng.randint(0, 4))]
         t = rstr(rng, 0 if op == "join" else 1, 2, alpha)
         vars_ = {"P": {"l": parts}, "T": {"s": t}}
@@ -306,15 +339,26 @@ def gen_event(rng):
     if op == "replace":
         t = rpart(rng, s) or [rng.choice(s or [44])]
         x = rng.random()
-        r = [] if x < 0.2 else t + t if x < 0.35 else t[::-1] if x < 0.45 else rstr(rng, 0, 3)
+        r = [] if x < 0.2 else t + t if x < 0.35 else t[::-1] if x < 0.45 else wstr(rng, 0, 3)
         return ({"op": op, "s": s, "t": t, "r": r}, "replace(S, T, R)",
                 {"S": {"s": s}, "T": {"s": t}, "R": {"s": r}}, "str")
     if op == "replace_empty":
         r = rstr(rng, 0, 2)
         return ({"op": op, "s": s, "t": [], "r": r}, "replace(S, T, R)",
                 {"S": {"s": s}, "T": {"s": []}, "R": {"s": r}}, "any")
+    if op == "idem":
+        # trim / upper / lower once and twice on any characters: special ones at both ends, mixed
+        # with the ASCII white space
+        f = rng.choice(["trim", "trim", "upper", "lower"])
+        ends = WSCH + WIDE_WS + WIDE_MARK if f == "trim" else WIDE_CASE + WIDE_MARK
+        ends = rng.sample(ends, rng.randint(1, 4)) + [rng.choice(WSCH)]
+        s = ([rng.choice(ends) for _ in range(rng.randint(0, 3))] + wstr(rng, 0, 6)
+             + [rng.choice(ends) for _ in range(rng.randint(0, 3))])
+        return ({"op": op, "f": f, "s": s}, f"[{f}(S), {f}({f}(S))]", {"S": {"s": s}}, "pair")
     if op in ("apply1", "apply2"):
         f = rng.choice(["reverse", "upper", "lower", "trim"])
+        if f == "reverse":
+            s = wstr(rng)
         if f == "trim":
             s = ([rng.choice(WSCH) for _ in range(rng.randint(0, 3))] + rstr(rng, 0, 8)
                  + [rng.choice(WSCH) for _ in range(rng.randint(0, 3))])
@@ -347,69 +391,160 @@ def gen_event(rng):
 
 
 NOBRACE = [c for c in ALPHA if c != "{"]
+NOCLOSE = [c for c in ALPHA if c not in "{}"]
+
+
+def literal(rng, names, last=False):
+    """Text outside the placeholders.  Before a placeholder it has no opening brace (a closing one on its
+    own is ordinary text).  Behind the last placeholder opening braces that are never closed are ordinary
+    text as well, whatever follows them: the text of an argument number or of a name, '#', a format."""
+    t = rstr(rng, 0, 4, NOBRACE)
+    if last and rng.random() < 0.4:
+        for _ in range(rng.randint(1, 2)):
+            x = rng.random()
+            tail = rng.choice(names) if x < 0.6 else ""
+            if x < 0.35:
+                tail += rng.choice(["#", "#5", "#-3", "#04x", "#x", "#.2", "0", "1"])
+            t = t + [123] + cps(tail) + rstr(rng, 0, 2, NOCLOSE)
+    return t
+
+
+def num_value(rng):
+    """an integer -> (value for the interpreter, value for the model)"""
+    x = rng.random()
+    if x < 0.45:
+        n = rng.randint(0, 99999)
+    elif x < 0.6:
+        n = rng.randint(0, 20)
+    else:
+        # beyond 2^31, 2^53, 2^64: text of 10..40 digits, or next to a power of two
+        n = int(str(rng.randint(1, 9)) + "".join(rng.choice("0123456789") for _ in range(rng.randint(9, 39))))
+        if rng.random() < 0.4:
+            n = 2 ** rng.choice([31, 32, 53, 63, 64, 100, 128]) + rng.randint(-1, 1)
+    if n and rng.random() < 0.4:
+        n = -n
+    if abs(n) <= 99999:
+        return {"i": n}, {"k": "i", "txt": [], "n": n, "ds": []}
+    return {"i": n}, {"k": "b", "txt": [], "n": -1 if n < 0 else 1, "ds": [int(c) for c in str(abs(n))]}
 
 
 def gen_interp(rng):
+    """s(F) with the variables v<i>, or sprintf(F, a0, a1, ...) with 1..3 or 11..13 arguments; the
+    placeholders are a selection of the values, with repeats; the model scans the template itself."""
     via = rng.choice(["s", "sprintf"])
-    nph = rng.randint(1, 3)
-    env, segs, vars_ = [], [], {}
-    tpl = ""
-
-    def lit(last=False):
-        nonlocal tpl
-        t = rstr(rng, 0, 4, NOBRACE)
-        if last and rng.random() < 0.2:
-            # an opening brace that is never closed is ordinary text
-            t = [c for c in t if c != 125] + [123] + [c for c in rstr(rng, 0, 2, NOBRACE) if c != 125]
-        segs.append({"k": 0, "txt": t, "var": 1, "w": 0, "mode": "r", "hex": False})
-        tpl += txt(t)
-
-    for i in range(nph):
-        lit()
-        if rng.random() < 0.6:
-            v = rstr(rng, 0, 6)
-            env.append({"k": "s", "txt": v, "n": 0})
-            vars_[f"v{i}"] = {"s": v}
-            hex_ = False
-            mode = rng.choice(["r", "l", "r", "l", "z"])
+    nargs = rng.randint(1, 3) if rng.random() < 0.6 else rng.randint(11, 13)
+    if via == "s":
+        nums = sorted(rng.sample(range(13), min(nargs, 4)))   # v1 and v10: one name is a prefix of another
+        names = [f"v{i}" for i in nums]
+    else:
+        names = [str(i) for i in range(nargs)]
+    env, vars_ = [], {}
+    for i, name in enumerate(names):
+        if rng.random() < 0.55:
+            v = wstr(rng, 0, 6)
+            val, mv = {"s": v}, {"k": "s", "txt": v, "n": 0, "ds": []}
         else:
-            hex_ = rng.random() < 0.3
-            mode = rng.choice(MODES)
-            n = rng.randint(0, 99999) if rng.random() < 0.7 else rng.randint(0, 20)
-            if not hex_ and mode != "z" and rng.random() < 0.3:
-                n = -n               # '0' padding of a negative number is not defined
-            env.append({"k": "i", "txt": [], "n": n})
-            vars_[f"v{i}"] = {"i": n}
-        w = rng.choice([0, 0, rng.randint(1, 9)])
-        segs.append({"k": 1, "txt": [], "var": i + 1, "w": w, "mode": mode, "hex": hex_})
-        name = f"v{i}" if via == "s" else str(i)
-        tpl += "{" + name + fmt_text(w, mode, hex_) + "}"
-    lit(last=True)
-    vars_["F"] = {"s": cps(tpl)}
+            val, mv = num_value(rng)
+        mv["name"] = cps(name)
+        env.append(mv)
+        vars_[name if via == "s" else f"a{i}"] = val
+    tpl = []
+    favourites = [i for i in (0, 1, 10, 11, 12) if i < len(names)]
+    for _ in range(rng.randint(1, 4)):
+        tpl += literal(rng, names)
+        i = rng.choice(favourites) if rng.random() < 0.5 else rng.randrange(len(names))
+        mv = env[i]
+        hex_ = mv["k"] != "s" and rng.random() < 0.4
+        mode = rng.choice(["r", "l", "r", "l", "z"])
+        if mode == "z" and mv["k"] != "s" and mv["n"] < 0:
+            mode = "r"               # '0' padding of a negative number is not defined
+        w = rng.choice([0, 0, rng.randint(1, 9), rng.randint(10, 45) if mv["k"] == "b" else 12])
+        tpl += cps("{" + names[i] + fmt_text(w, mode, hex_) + "}")
+    tpl += literal(rng, names, last=True)
+    vars_["F"] = {"s": tpl}
     if via == "s":
         src = "s(F)"
     else:
-        src = "sprintf(F" + "".join(f", v{i}" for i in range(nph)) + ")"
-    return ({"op": "interp", "via": via, "segs": segs, "env": env, "tpl": cps(tpl)}, src, vars_, "str")
+        src = "sprintf(F" + "".join(f", a{i}" for i in range(len(names))) + ")"
+    return ({"op": "interp", "via": via, "env": env, "tpl": tpl}, src, vars_, "str")
+
+
+def is_tie(fp, d):
+    return len(fp) > d and fp[d] == 5 and not any(fp[d + 1:])
+
+
+def round_event(neg, ip, fp, d, w, mode, via, lit1, lit2, as_int):
+    """the event and the call for  {v#.d}  and  <lit1>{v#[-|0]w.d}<lit2>  on the numeral (-)ip.fp"""
+    text = ("-" if neg else "") + "".join(map(str, ip)) + ("." + "".join(map(str, fp)) if fp else "")
+    val = {"i": text} if as_int else {"f": text}
+    name = "v" if via == "s" else "0"
+    f1 = cps("{" + name + fmt_text(0, "r", digits=d) + "}")
+    f2 = lit1 + cps("{" + name + fmt_text(w, mode, digits=d) + "}") + lit2
+    src = "[s(F1), s(F2)]" if via == "s" else "[sprintf(F1, v), sprintf(F2, v)]"
+    return ({"op": "round", "neg": int(neg), "ip": ip, "fp": fp, "d": d, "w": w, "mode": mode, "via": via,
+             "int": int(as_int), "lit1": lit1, "lit2": lit2},
+            src, {"v": val, "F1": {"s": f1}, "F2": {"s": f2}}, "round")
 
 
 def gen_round(rng):
+    """A decimal of at most 15 significant digits (a float holds it exactly enough: the distance to the
+    nearest tie is larger than the error of the conversion), or an integer of any size; positive or
+    negative; never a tie."""
     while True:
-        sc = rng.randint(0, 4)
-        m = rng.randint(0, 99999)
-        d = rng.randint(0, 3)
-        if sc > d:
-            cut = 10 ** (sc - d)
-            if (m % cut) * 2 == cut:
-                continue              # a tie: which way it goes is not stated
-        break
-    w = rng.randint(0, 9)
-    mode = rng.choice(MODES)
-    f1 = "{v" + fmt_text(0, "r", digits=d) + "}"
-    f2 = "{v" + fmt_text(w, mode, digits=d) + "}"
-    val = {"i": m} if sc == 0 and rng.random() < 0.5 else {"d": [m, sc]}
-    return ({"op": "round", "m": m, "sc": sc, "d": d, "w": w, "mode": mode},
-            "[s(F1), s(F2)]", {"v": val, "F1": {"s": cps(f1)}, "F2": {"s": cps(f2)}}, "round")
+        as_int = rng.random() < 0.25
+        if as_int:
+            li = rng.randint(1, 9) if rng.random() < 0.6 else rng.randint(16, 30)
+            lf = 0
+        else:
+            li = rng.randint(1, 9)
+            lf = rng.randint(0, min(6, 15 - li))
+        ip = [0] if (li == 1 and rng.random() < 0.5) else \
+            [rng.randint(1, 9)] + [rng.choice([0, 9, 9, rng.randint(0, 9)]) for _ in range(li - 1)]
+        fp = [rng.choice([9, 9, 5, 4, 0, rng.randint(0, 9)]) for _ in range(lf)]
+        d = rng.randint(0, 7)
+        if not is_tie(fp, d):
+            break
+    neg = rng.random() < 0.5
+    mode = rng.choice(["r", "l"] if neg else MODES)
+    via = rng.choice(["s", "sprintf"])
+    names = ["v"] if via == "s" else ["0"]
+    return round_event(neg, ip, fp, d, rng.randint(0, 12), mode, via,
+                       literal(rng, names), literal(rng, names, last=True), as_int)
+
+
+def num_events(recs, rng):
+    """The cases of StrNum.tla (every numeral over a small set of digits, every d; every integer of a
+    range and some beyond 2^64) as calls: -> list of (event, src, vars, kind)."""
+    out = []
+    seen = set()
+    for rec in sorted(recs, key=lambda q: json.dumps(q, sort_keys=True)):
+        neg, ip, fp, d = bool(rec["neg"]), rec["ip"], rec["fp"], rec["d"]
+        key = (rec["kind"], neg, tuple(ip), tuple(fp), d)
+        if key in seen:
+            continue
+        seen.add(key)
+        if rec["kind"] == "round":
+            for as_int in ([False, True] if not fp else [False]):
+                via = rng.choice(["s", "sprintf"])
+                name = "v" if via == "s" else "0"
+                out.append(round_event(neg, ip, fp, d, rng.randint(0, 9),
+                                       rng.choice(["r", "l"] if neg else MODES), via,
+                                       cps("<"), cps(">{" + name + "#." + str(d)), as_int))
+        else:
+            n = int("".join(map(str, ip)))
+            if neg and n == 0:
+                continue
+            via = rng.choice(["s", "sprintf"])
+            name = "n" if via == "s" else "0"
+            tpl = "<{N#x}|{N#12x}|{N#-12x}|{N}|" + ("" if neg else "{N#012x}|{N#07}") + "{N#x"
+            tpl = cps(tpl.replace("N", name))
+            mv = ({"k": "i", "txt": [], "n": -n if neg else n, "ds": []} if n <= 99999 else
+                  {"k": "b", "txt": [], "n": -1 if neg else 1, "ds": ip})
+            mv["name"] = cps(name)
+            vars_ = {"n" if via == "s" else "a0": {"i": -n if neg else n}, "F": {"s": tpl}}
+            out.append(({"op": "interp", "via": via, "env": [mv], "tpl": tpl},
+                        "s(F)" if via == "s" else "sprintf(F, a0)", vars_, "str"))
+    return out
 
 
 def observe(ses, ev, src, vars_, kind):
@@ -431,7 +566,8 @@ def observe(ses, ev, src, vars_, kind):
     # composite results: a list of values
     shape = {"decompose": [("s", "str"), ("rb", "bool"), ("rb2", "bool"), ("ri", "int")],
              "concat": [("rs", "str"), ("ri", "int")],
-             "round": [("rs", "str"), ("rs2", "str")]}[kind]
+             "round": [("rs", "str"), ("rs2", "str")],
+             "pair": [("rs", "str"), ("rs2", "str")]}[kind]
     for f, k in shape:
         e[f] = ZERO[k]
     if o[0] == "val":
@@ -456,6 +592,12 @@ def record_events(rng, n):
         events.append(observe(ses, ev, src, vars_, kind))
         meta.append((src, vars_, kind))
     return events, meta, ses.n
+
+
+def record_calls(calls):
+    ses = Session()
+    events = [observe(ses, ev, src, vars_, kind) for ev, src, vars_, kind in calls]
+    return events, [(src, vars_, kind) for _, src, vars_, kind in calls], ses.n
 
 
 def tlc_validate(events, label=None):
@@ -483,10 +625,26 @@ def tlc_validate(events, label=None):
 OBS = ("st", "ri", "rb", "rb2", "rs", "rs2", "rl")
 
 
+def _mval(v):
+    """a value of the model environment as text"""
+    if v["k"] == "s":
+        return show(txt(v["txt"]))
+    if v["k"] == "i":
+        return str(v["n"])
+    return ("-" if v["n"] < 0 else "") + "".join(map(str, v["ds"]))
+
+
 def describe(ev):
-    skip = ("op", "segs", "env") + OBS + (("s",) if ev["op"] == "decompose" else ())
+    skip = ("op", "env") + OBS + (("s",) if ev["op"] == "decompose" else ())
+    extra = []
+    if ev["op"] == "round":
+        skip += ("neg", "ip", "fp", "int")
+        extra = ["v=" + ("-" if ev["neg"] else "") + "".join(map(str, ev["ip"]))
+                 + ("." + "".join(map(str, ev["fp"])) if ev["fp"] or not ev["int"] else "")]
+    if ev["op"] == "interp":
+        extra = [txt(v["name"]) + "=" + _mval(v) for v in ev["env"]]
     return ev["op"] + "(" + ", ".join(
-        f"{k}={show(_evtxt(v))}" for k, v in sorted(ev.items()) if k not in skip) + ")"
+        [f"{k}={show(_evtxt(v))}" for k, v in sorted(ev.items()) if k not in skip] + extra) + ")"
 
 
 def _evtxt(v):
@@ -505,6 +663,8 @@ def report_bad(run, events, meta, bad):
     for k, why in bad:
         ev = events[k]
         src, vars_, kind = meta[k]
+        if why.startswith("MODEL:"):
+            raise MachineryError("the generator produced an event the model does not define: " + describe(ev))
         key = "trace:" + describe(ev)
         if ev["op"] in DRIFT_OPS:
             run.drift(ev["op"], {"call": describe(ev), "observed": observed(ev)})
@@ -540,6 +700,10 @@ def _w_record(job):
     return record_events(random.Random(seed), n)
 
 
+def _w_calls(calls):
+    return record_calls(calls)
+
+
 CHUNK = 4500          # events per recording job and per TLC validation run
 NPROC = 8
 
@@ -554,9 +718,13 @@ def run(run):
     tlc_model = ThreadPoolExecutor(max_workers=1)        # the model runs, one after the other
     tlc_trace = ThreadPoolExecutor(max_workers=NPROC)    # trace validations
     try:
-        model_futs = [tlc_model.submit(run_tlc, "Str", cfg, coverage=True, timeout=3000,
+        # (-coverage costs 2.5 times the run: the actions taken are counted from the exported records)
+        model_futs = [tlc_model.submit(run_tlc, "Str", cfg, timeout=3000,
                                        label=f"Str driver machine and laws ({cfg})")
                       for cfg, _ in cfgs]
+        numcfg = "StrNum_quick" if quick else "StrNum_thorough"
+        num_fut = tlc_trace.submit(run_tlc, "StrNum", numcfg, coverage=True, timeout=3000, workers=4,
+                                   label=f"StrNum rounding and base 16 on digit sequences ({numcfg})")
         # binding B, recording: independent chunks, each with its own seeded generator
         jobs = [(run.seed * 1000003 + i, min(CHUNK, nev - off))
                 for i, off in enumerate(range(0, nev, CHUNK))]
@@ -566,12 +734,22 @@ def run(run):
             chunks.append(out)
             val_futs.append(tlc_trace.submit(
                 tlc_validate, out[0], f"Str_Trace validation of recorded calls (chunk {i})"))
+        # the exhaustive number cases of StrNum.tla, observed on the interpreter, judged by Str_Trace.tla
+        res = num_fut.result()
+        run.add_tlc(res, res.label)
+        calls = num_events(res.records("NUM"), random.Random(run.seed))
+        if not calls:
+            raise MachineryError("TLC exported no number cases")
+        nnum = len(calls)
+        for j, out in enumerate(pool.imap(_w_calls, [calls[o:o + CHUNK] for o in range(0, nnum, CHUNK)])):
+            chunks.append(out)
+            val_futs.append(tlc_trace.submit(
+                tlc_validate, out[0], f"Str_Trace validation of the StrNum cases (chunk {j})"))
         # binding A: replay the case records of each model run
         ncase = nkeys = neval_a = 0
         seen = set()
         for (cfg, maxs), fut in zip(cfgs, model_futs):
             res = fut.result()
-            run.add_tlc(res, res.label)
             recs = []
             for rec in res.records("CASE"):
                 key = (tuple(rec["s"]), tuple(rec["t"]), tuple(rec["r"]), maxs)
@@ -579,6 +757,11 @@ def run(run):
                     continue
                 seen.add(key)
                 recs.append(rec)
+            res.coverage = {"Init": len(recs), "ReplaceFound": sum(q["cnt"][0] for q in recs),
+                            "ReplaceDone": len(recs), "JoinStep": sum(q["cnt"][1] for q in recs),
+                            "JoinDone": len(recs), "ReverseStep": sum(q["cnt"][2] for q in recs),
+                            "ReverseDone": len(recs)}
+            run.add_tlc(res, res.label)
             recs.sort(key=lambda q: (q["s"], q["t"], q["r"]))
             for j in (7, 3000, 20000):
                 if j < len(recs) and cfg == cfgs[0][0]:
@@ -620,22 +803,30 @@ def run(run):
     for e in events:
         ops[e["op"]] = ops.get(e["op"], 0) + 1
     distinct = len({json.dumps(e, sort_keys=True) for e in events})
-    run.cov["traces_validated_against_impl"] = ncase + nev
+    run.cov["traces_validated_against_impl"] = ncase + nev + nnum
     run.cov["evaluations"] = neval_a + nb
     run.cov["distinct_nontrivial"] = nkeys + distinct
     run.cov["rule"] = ("binding A: distinct (law, expression, arguments) triples replayed from the case records "
                        "of Str.tla (one record per (s, t, r)); binding B: distinct recorded events; "
                        "evaluations counts interpreter calls")
     run.cov["exhaustive"] = True
-    run.cov["bounds"] = {"cfgs": [c for c, _ in cfgs], "random_events": nev, "events_per_op": ops}
+    run.cov["bounds"] = {"cfgs": [c for c, _ in cfgs] + [numcfg], "random_events": nev,
+                         "number_cases": nnum, "events_per_op": ops}
     run.assumptions += [
         "strings are bound in the session environment as values, not written as source literals",
         "split is compared only with separators made by escape_pattern (regular expressions are not modelled)",
         "replace with an empty search text and ord('') only have to return or fail at language level",
-        "rounding formats are compared as numbers, ties are not generated; '0' padding of negative numbers "
-        "is not generated",
+        "rounding formats are compared as numbers (any numeral of the rounded number is accepted, also with "
+        "an exponent), ties are not generated; decimals have at most 15 significant digits (they are floats), "
+        "ints under a rounding or hex format have up to 40 digits; '0' padding of negative numbers is not generated",
+        "base 16 of a negative integer is the sign followed by the digits of the magnitude",
         "lines/words/unlines/unwords/q/esc are not named by the property: disagreements are drift",
-        "case mapping is checked on ASCII letters and e-acute only",
+        "the VALUE of trim / upper / lower is compared on printable ASCII, ASCII white space and e-acute only; on "
+        "other characters (Unicode spaces, invisible marks, special-casing letters, characters beyond U+FFFF) "
+        "the laws that need no table are checked: idempotence, trim only takes from the two ends, takes nothing "
+        "printable and leaves no ASCII white space there; all other functions are checked on those characters too",
+        "sprintf is called with 1..3 and 11..13 arguments; a group {..} whose content is not a name with an "
+        "optional format is not generated",
     ]
 
 
